@@ -243,7 +243,8 @@ func buildVal(t types.Type, prefix string, get func(path string, s Sort, typ typ
 	case TFloat:
 		return &Val{K: VFloat, F: []*Val{scalar(get(prefix+"#nan", SBool, nil), nil), scalar(get(prefix+"#val", SReal, nil), nil)}, Typ: t}
 	case TSlice:
-		return &Val{K: VSlice, F: []*Val{scalar(get(prefix+"#arr", SInt, nil), nil), scalar(get(prefix+"#off", SInt, nil), nil), scalar(get(prefix+"#len", SInt, nil), nil)}, Typ: t}
+		// every slice value in the model has offset 0 (re-slicing from a non-zero index copies, see execSlice)
+		return &Val{K: VSlice, F: []*Val{scalar(get(prefix+"#arr", SInt, nil), nil), scalar(intLit(0), nil), scalar(get(prefix+"#len", SInt, nil), nil)}, Typ: t}
 	case TStruct:
 		st := t.Underlying().(*types.Struct)
 		v := &Val{K: VStruct, Typ: t}
